@@ -176,6 +176,138 @@ Example C17_group_regression_freeform :
   consistentb (Grp (mkG 10 10 500 500 10 10 500 500) [Leaf 100 100 50 50; Leaf 10 10 500 500]) = true.
 Proof. exact regression_freeform. Qed.
 
+(* ---- members that are moved or resized afterwards, frames from other producers ---- *)
+
+(** The statement the code really maintains once a frame can be assigned (shape.left /
+    top / width / height on a shape or on a GROUP, which writes a:off / a:ext only, or a
+    group frame written by another producer with a:off / a:ext different from a:chOff /
+    a:chExt).  A group counts in the group that contains it with its OWN a:off / a:ext
+    ([sh_x] .. [sh_cy] of [Grp g _] are those of [g]; see C17_group_bbox), never with its
+    members or its child frame.  [okq q s] / [slide_okq q sl]: the shape at path [q], if
+    it is a group, has off = chOff, ext = chExt = bounding box of its members' own frames.
+
+    One addition at path [p], on ANY tree (no consistency assumed): every group on the
+    path from the receiving group up to the root (the prefixes [q] of [p]) satisfies
+    that; every other path that satisfied it before still does (paths into the new
+    member: as far as the new member does). *)
+Theorem C17_group_add_settles_path : forall p new sl sl' q,
+  slide_add p new sl = Ok sl' ->
+  (is_prefix q p = true \/ (slide_okq q sl = true /\ forall r, okq r new = true)) ->
+  slide_okq q sl' = true.
+Proof. exact slide_add_okq. Qed.
+Print Assumptions C17_group_add_settles_path.
+
+(** An assignment to the member at path [p] (or a foreign frame put on the group at
+    [p]): [u] is [assign_node f v] or [reframe_node g], or anything that keeps the
+    members.  What does not change: every group walked through keeps its xfrm and all
+    its other members (nothing is recalculated), the member at [p] becomes [u] of it. *)
+Theorem C17_group_assign_frame : forall p u s s',
+  upd_in p u s = Ok s' -> upd_frame p u s s'.
+Proof. exact upd_in_frame. Qed.
+Print Assumptions C17_group_assign_frame.
+
+Theorem C17_group_assign_at : forall p u s s',
+  upd_in p u s = Ok s' ->
+  exists t t', sub_at p s = Some t /\ u t = Ok t' /\ sub_at p s' = Some t'.
+Proof. exact upd_in_at. Qed.
+Print Assumptions C17_group_assign_at.
+
+Theorem C17_group_assign_off_path : forall p u s s' q,
+  keeps_kids u -> upd_in p u s = Ok s' -> is_prefix q p = false -> sub_at q s' = sub_at q s.
+Proof. exact upd_in_off_path. Qed.
+Print Assumptions C17_group_assign_off_path.
+
+Theorem C17_group_assign_above : forall p u s s' q,
+  upd_in p u s = Ok s' -> is_prefix q p = true -> q <> p ->
+  exists g kids kids', sub_at q s = Some (Grp g kids) /\ sub_at q s' = Some (Grp g kids').
+Proof. exact upd_in_above. Qed.
+Print Assumptions C17_group_assign_above.
+
+Theorem C17_group_assign_keeps_members : forall f v g,
+  keeps_kids (assign_node f v) /\ keeps_kids (reframe_node g).
+Proof. exact assign_reframe_keep. Qed.
+Print Assumptions C17_group_assign_keeps_members.
+
+(** An assignment can spoil at most the member itself (a group whose own frame was
+    assigned) and the group that contains it; every other path, every group further up
+    included, is exactly as before. *)
+Theorem C17_group_assign_dirties_two : forall p u sl sl' q,
+  keeps_kids u -> slide_upd p u sl = Ok sl' -> q <> p -> q <> removelast p ->
+  slide_okq q sl' = slide_okq q sl.
+Proof. exact slide_upd_okq. Qed.
+Print Assumptions C17_group_assign_dirties_two.
+
+(** All histories of additions, assignments (shapes and groups), foreign frames and
+    re-opens, from any start state with any set [d] of unclean paths: every group
+    outside [dirty_after ops d] has off = chOff, ext = chExt = the bounding box of its
+    members' own frames.  [dirty_step]: an assignment at [p] adds [p] and its parent, an
+    addition at [p] removes every prefix of [p]. *)
+Theorem C17_group_history_assign : forall ops sl sl' d,
+  Forall hop_wf ops -> clean_except d sl -> hist_run sl ops = Ok sl' ->
+  clean_except (dirty_after ops d) sl'.
+Proof. exact hist_clean. Qed.
+Print Assumptions C17_group_history_assign.
+
+(** After any such history an addition at [p] settles the whole path of [p]. *)
+Theorem C17_group_history_then_add : forall ops sl sl1 p new sl2 q,
+  hist_run sl ops = Ok sl1 -> hstep sl1 (HAdd p new) = Ok sl2 ->
+  is_prefix q p = true -> slide_okq q sl2 = true.
+Proof. exact hist_then_add. Qed.
+Print Assumptions C17_group_history_then_add.
+
+(** The earlier theorems are the special case: recursive consistency is every path
+    clean; a history of additions dirties nothing; [slide_run] is [hist_run] on
+    additions; so C17_group_history follows from C17_group_history_assign. *)
+Theorem C17_group_consistent_iff_clean : forall sl,
+  forallb consistentb sl = true <-> (forall q, slide_okq q sl = true).
+Proof. exact all_consistent_iff. Qed.
+Print Assumptions C17_group_consistent_iff_clean.
+
+Theorem C17_group_history_adds_only : forall ops sl sl',
+  Forall is_add ops -> Forall hop_wf ops ->
+  forallb consistentb sl = true -> hist_run sl ops = Ok sl' -> forallb consistentb sl' = true.
+Proof. exact hist_adds_consistent. Qed.
+Print Assumptions C17_group_history_adds_only.
+
+Theorem C17_group_history_is_instance : forall ops sl,
+  hist_run sl (map hop_of_gop ops) = slide_run sl ops.
+Proof. exact hist_run_gops. Qed.
+Print Assumptions C17_group_history_is_instance.
+
+Theorem C17_group_history_again : forall ops sl sl',
+  forallb consistentb sl = true -> slide_run sl ops = Ok sl' -> forallb consistentb sl' = true.
+Proof. exact slide_history_consistent_as_instance. Qed.
+Print Assumptions C17_group_history_again.
+
+(** Non-vacuity: a nested group scaled and moved as a whole by another producer, the
+    deck re-opened, a text box added to the outer group: the outer group is the box of
+    its members with the nested group counted by its own frame; the nested group is
+    untouched and is the only dirty path; the slide is not recursively consistent. *)
+Example C17_group_scaled_nested_nonvacuous :
+  hist_run [] scaled_ops = Ok scaled_result /\ Forall hop_wf scaled_ops /\
+  dirty_after scaled_ops [] = [[0%nat; 1%nat]] /\
+  slide_okq [0%nat] scaled_result = true /\ slide_okq [0%nat; 1%nat] scaled_result = false /\
+  forallb consistentb scaled_result = false.
+Proof. exact scaled_example. Qed.
+
+(** Non-vacuity for assignments through the public API (group.left, group.width,
+    shape.top), followed by an addition to the outer group, or inside the moved group. *)
+Example C17_group_moved_nested_nonvacuous :
+  hist_run [] moved_ops
+  = Ok [Grp (mkG 10 20 140 130 10 20 140 130)
+          [Leaf 100 100 50 50; Grp (mkG 500 20 7 40 10 20 30 40) [Leaf 10 (-5) 30 40]]] /\
+  dirty_after moved_ops [] = [[0%nat; 1%nat; 0%nat]; [0%nat; 1%nat]; [0%nat; 1%nat]; [0%nat]; [0%nat; 1%nat]; [0%nat]] /\
+  hist_run [] (moved_ops ++ [HAdd [0%nat] (Leaf 0 0 1 1)])
+  = Ok [Grp (mkG 0 0 507 150 0 0 507 150)
+          [Leaf 100 100 50 50; Grp (mkG 500 20 7 40 10 20 30 40) [Leaf 10 (-5) 30 40]; Leaf 0 0 1 1]] /\
+  dirty_after (moved_ops ++ [HAdd [0%nat] (Leaf 0 0 1 1)]) []
+  = [[0%nat; 1%nat; 0%nat]; [0%nat; 1%nat]; [0%nat; 1%nat]; [0%nat; 1%nat]] /\
+  hist_run [] (moved_ops ++ [HAdd [0%nat; 1%nat] (Leaf 0 0 1 1)])
+  = Ok [Grp (mkG 0 (-5) 150 155 0 (-5) 150 155)
+          [Leaf 100 100 50 50; Grp (mkG 0 (-5) 40 40 0 (-5) 40 40) [Leaf 10 (-5) 30 40; Leaf 0 0 1 1]]] /\
+  dirty_after (moved_ops ++ [HAdd [0%nat; 1%nat] (Leaf 0 0 1 1)]) [] = [[0%nat; 1%nat; 0%nat]].
+Proof. exact moved_example. Qed.
+
 (* ------------------------------------------------------------------ freeform *)
 
 (** For every builder (any start, any operations, any int or float scales) and origin:
